@@ -275,7 +275,9 @@ CLAIMED.update({
              "never itself as a global) over generated packages in several declaration orders and file splits.",
         ref="DESIGN.md §6 C04",
         note="Trusted: the hook repeats the first loop of Decls; the parser reads what Coq reads. The completeness of the dependency recording "
-             "itself (every reference kind calls addDep) is checked by the structural check only (partial).",
+             "itself (every reference kind calls addDep) is not proved; it is checked order-independently through the hook: on every generated layout "
+             "and on the repository's ten example packages every same-package definition a unit's emitted text mentions must be among the "
+             "dependencies recorded for that unit (partial: a sample of programs). Known findings: method-name-collision, interface-conversion-order.",
         tech="Lean 4 proof (DFS emission: permutation + topological order) + hook-based correspondence + structural check over layouts"),
     "C05": dict(
         text="Machine-checked proofs (Lean 4 kernel): the comment sanitiser (three steps of AddComment) leaves no comment opener or closer, keeps "
